@@ -26,10 +26,10 @@ const (
 )
 
 type fixtures struct {
-	root    []byte   // app hash under which the proofs verify
-	commit  []byte   // committed packet commitment value
-	ack     []byte   // committed acknowledgement value
-	proofs  [][]byte // 0: commitment proof, 1: acknowledgement proof, 2: bytes that do not decode, 3: empty (decodes to an empty proof)
+	root   []byte   // app hash under which the proofs verify
+	commit []byte   // committed packet commitment value
+	ack    []byte   // committed acknowledgement value
+	proofs [][]byte // 0: commitment proof, 1: acknowledgement proof, 2: bytes that do not decode, 3: empty (decodes to an empty proof)
 }
 
 func makeFixtures(cdc codec.BinaryCodec) *fixtures {
